@@ -56,10 +56,12 @@ Definition F_F_END := bs "file.end".
 
 Definition run_file (v : val) : val :=
   match v with
-  | VL [VL [VN kind; VN ino; VN size; VN mtime; VN a; VN e; flens; shorts; VN np]; obs] =>
+  | VL [VL (VN kind :: VN ino :: VN size :: VN mtime :: VN a :: VN e :: flens :: shorts :: VN np :: rest); obs] =>
+      (* an optional last field: 1 when the modification time lies before the epoch (mtime is its distance) *)
+      let neg := match rest with [VN 1] => true | _ => false end in
       match vlist vnum flens, vlist vnum shorts with
       | Some flens, Some shorts =>
-          let m := {| f_is_file := (kind =? 0) || (kind =? 3); f_ino := ino; f_len := size; f_mtime_ns := mtime |} in
+          let m := {| f_is_file := (kind =? 0) || (kind =? 3) || (kind =? 4); f_ino := ino; f_len := size; f_mtime_ns := mtime; f_mtime_neg := neg |} in
           match crf_new m, obs with
           | None, VL [VN 0] => VL [finding K_TAG (bs "refused") (VL []) (VL [])]
           | None, _ => VL [finding K_TAG (bs "refused") (VL []) (VL []); finding K_DIVERGE F_F_NEW (VL [VN 0]) obs;
@@ -73,7 +75,7 @@ Definition run_file (v : val) : val :=
               let truncated := existsb (fun l => l <? e) flens in
               let tag := if truncated then bs "truncated" else if a =? e then bs "empty-range" else bs "intact" in
               VL (finding K_TAG tag (VL []) (VL [])
-                  :: cmp_field F_F_META (VL [VB (crf_etag ent); VN (crf_len ent); VN (crf_last_modified ent)]) (VL [oetag; olen; omtime])
+                  :: cmp_field F_F_META (VL [VB (crf_etag ent); VN (crf_len ent); (if crf_last_modified_neg ent then VL [VN 1; VN (crf_last_modified ent)] else VN (crf_last_modified ent))]) (VL [oetag; olen; omtime])
                   ++ cmp_field F_F_POLLS (VL mpolls) (VL opolls2)
                   ++ (let (ob, ok) := summary opolls in
                       (* when the file is truncated under the stream, where the failure lands depends on how the
